@@ -16,11 +16,24 @@ def primAsset : Prim → Asset
   | .mint a _ _ _ => a
   | .burn a _ _ _ => a
 
-/-- a flow that names no IBC voucher -/
-def clean (fl : List Prim) : Bool := fl.all (fun p => onBridge (primAsset p))
+/-- accounts the base model can name: everything except the ibc-transfer module account -/
+def notT : Addr → Bool
+  | .chainMod c => decide (c < 3)
+  | _ => true
+
+def primAddrs : Prim → Bool
+  | .send _ s d _ => notT s && notT d
+  | .mint _ b d _ => notT b && notT d
+  | .burn _ b s _ => notT b && notT s
+
+/-- a primitive that names neither an IBC voucher nor the ibc-transfer module account -/
+def okPrim (p : Prim) : Bool := onBridge (primAsset p) && primAddrs p
+
+/-- a flow that names no IBC voucher and never touches the ibc-transfer module account -/
+def clean (fl : List Prim) : Bool := fl.all okPrim
 
 @[simp] theorem clean_nil : clean [] = true := rfl
-@[simp] theorem clean_cons (p : Prim) (fl : List Prim) : clean (p :: fl) = (onBridge (primAsset p) && clean fl) := by
+@[simp] theorem clean_cons (p : Prim) (fl : List Prim) : clean (p :: fl) = (okPrim p && clean fl) := by
   simp [clean]
 @[simp] theorem clean_append (a b : List Prim) : clean (a ++ b) = (clean a && clean b) := by
   simp [clean, List.all_append]
@@ -32,8 +45,26 @@ theorem clean_delta {o : Obs} (ho : VoucherOnly o) (fl : List Prim) (h : clean f
   induction fl with
   | nil => rfl
   | cons p ps ih =>
-    simp only [clean_cons, Bool.and_eq_true] at h
-    simp only [Obs.flowDelta, ho p h.1, ih h.2]; rfl
+    simp only [clean_cons, okPrim, Bool.and_eq_true] at h
+    simp only [Obs.flowDelta, ho p h.1.1, ih h.2]; rfl
+
+/-- an observable that looks at the ibc-transfer module account only -/
+def TOnly (o : Obs) : Prop := ∀ p, primAddrs p = true → o.delta p = 0
+
+theorem clean_deltaT {o : Obs} (ho : TOnly o) (fl : List Prim) (h : clean fl = true) : o.flowDelta fl = 0 := by
+  induction fl with
+  | nil => rfl
+  | cons p ps ih =>
+    simp only [clean_cons, okPrim, Bool.and_eq_true] at h
+    simp only [Obs.flowDelta, ho p h.1.2, ih h.2]; rfl
+
+theorem notT_ne {a : Addr} (h : notT a = true) : a ≠ T := by
+  intro e; subst e; simp [notT, ibcRoute] at h
+
+theorem tbal_TOnly (a : Asset) : TOnly (balObs a T) := by
+  intro p hp
+  cases p <;> simp only [primAddrs, Bool.and_eq_true] at hp <;>
+    (have h1 := notT_ne hp.1; have h2 := notT_ne hp.2; simp [balObs, h1, h2])
 
 theorem onBridge_ne {a : Asset} (g : Nat) (h : onBridge a = true) : a ≠ voucher g := by
   intro e; subst e; simp [onBridge, ibcRoute] at h
@@ -54,20 +85,27 @@ theorem add_voucherOnly {o1 o2 : Obs} (h1 : VoucherOnly o1) (h2 : VoucherOnly o2
 theorem neg_voucherOnly {o : Obs} (h : VoucherOnly o) : VoucherOnly o.neg := by
   intro p hp; simp [Obs.neg, h p hp]
 
+@[simp] theorem notT_user (u : Nat) : notT (.user u) = true := rfl
+@[simp] theorem notT_U (u : Nat) : notT (U u) = true := rfl
+@[simp] theorem notT_ext (m : Nat) : notT (.ext m) = true := rfl
+@[simp] theorem notT_E : notT .erc20Mod = true := rfl
+@[simp] theorem notT_wfx : notT .wfx = true := rfl
+theorem notT_M {c : Nat} (hc : c < 3) : notT (.chainMod c) = true := by simp [notT, hc]
+
 /-! ### every flow builder of the base model is clean on the three bridge chains -/
 
 section builders
 variable {c : Nat} (hc : c < 3)
 include hc
 
-theorem clean_deposit (k : Kind) (g : Nat) (h : Addr) (n : Nat) : clean (bridgeTokenToBaseCoin k g c h n) = true := by
-  cases k <;> simp [bridgeTokenToBaseCoin, depositBridgeToken, conversionCoin, onBridge, primAsset, hc]
+theorem clean_deposit' (k : Kind) (g : Nat) (h : Addr) (n : Nat) (hh : notT h = true) : clean (bridgeTokenToBaseCoin k g c h n) = true := by
+  cases k <;> simp [bridgeTokenToBaseCoin, depositBridgeToken, conversionCoin, okPrim, primAddrs, onBridge, primAsset, M, E, precompileAcc, evmMod, badContract, hh, notT_M hc, hc]
 
-theorem clean_withdraw (k : Kind) (g : Nat) (h : Addr) (n : Nat) : clean (baseCoinToBridgeToken k g c h n) = true := by
-  cases k <;> simp [baseCoinToBridgeToken, withdrawBridgeToken, conversionCoin, onBridge, primAsset, hc]
+theorem clean_withdraw' (k : Kind) (g : Nat) (h : Addr) (n : Nat) (hh : notT h = true) : clean (baseCoinToBridgeToken k g c h n) = true := by
+  cases k <;> simp [baseCoinToBridgeToken, withdrawBridgeToken, conversionCoin, okPrim, primAddrs, onBridge, primAsset, M, E, precompileAcc, evmMod, badContract, hh, notT_M hc, hc]
 
-theorem clean_addBridgeFee (k : Kind) (g : Nat) (h : Addr) (n : Nat) : clean (addBridgeFee k g c h n) = true := by
-  cases k <;> simp [addBridgeFee, onBridge, primAsset, hc]
+theorem clean_addBridgeFee' (k : Kind) (g : Nat) (h : Addr) (n : Nat) (hh : notT h = true) : clean (addBridgeFee k g c h n) = true := by
+  cases k <;> simp [addBridgeFee, okPrim, primAddrs, onBridge, primAsset, M, E, precompileAcc, evmMod, badContract, hh, notT_M hc, hc]
 
 end builders
 
@@ -76,39 +114,64 @@ theorem onBridge_den (g : Nat) (d : Den) (hd : denOk d) : onBridge (d.asset g) =
   | base => rfl
   | chain c => simp only [denOk] at hd; simp [Den.asset, onBridge, hd]
 
-theorem clean_convertDenom (k : Kind) (g : Nat) (h : Addr) (n : Nat) (src dst : Den) (hs : denOk src) (hd : denOk dst) :
+theorem clean_convertDenom' (k : Kind) (g : Nat) (h : Addr) (n : Nat) (src dst : Den) (hs : denOk src) (hd : denOk dst)
+    (hh : notT h = true) :
     clean (convertDenom k g h n src dst) = true := by
   have h1 := onBridge_den g src hs
   have h2 := onBridge_den g dst hd
   cases k <;> cases src <;> cases dst <;>
-    simp_all [convertDenom, onBridge, primAsset, Den.asset]
+    simp_all [convertDenom, okPrim, primAddrs, onBridge, primAsset, M, E, precompileAcc, evmMod, badContract, hh, Den.asset]
 
-theorem clean_feeToBridgeDenom {c : Nat} (hc : c < 3) (k : Kind) (g : Nat) (h : Addr) (n : Nat) :
+theorem clean_feeToBridgeDenom' {c : Nat} (hc : c < 3) (k : Kind) (g : Nat) (h : Addr) (n : Nat) (hh : notT h = true) :
     clean (feeToBridgeDenom k g c h n) = true := by
   cases k
   · rfl
-  all_goals (simp only [feeToBridgeDenom]; exact clean_convertDenom _ g h n .base (.chain c) trivial hc)
+  all_goals (simp only [feeToBridgeDenom]; exact clean_convertDenom' _ g h n .base (.chain c) trivial hc hh)
 
-theorem clean_refundCoin {c : Nat} (hc : c < 3) (k : Kind) (g : Nat) (r : Addr) (n : Nat) :
+theorem clean_refundCoin' {c : Nat} (hc : c < 3) (k : Kind) (g : Nat) (r : Addr) (n : Nat) (hh : notT r = true) :
     clean (bridgeCallRefundCoin k g c r n) = true := by
-  have hcd := fun k => clean_convertDenom k g r n (.chain c) .base hc trivial
+  have hcd := fun k => clean_convertDenom' k g r n (.chain c) .base hc trivial hh
   cases k <;> simp only [bridgeCallRefundCoin, clean_append, clean_cons, clean_nil, hcd] <;>
-    simp [onBridge, primAsset, hc]
+    simp [okPrim, primAddrs, onBridge, primAsset, M, E, precompileAcc, evmMod, badContract, hh, hc, notT_M hc]
 
-theorem clean_convertCoin (k : Kind) (g : Nat) (s r : Addr) (n : Nat) : clean (convertCoin k g s r n) = true := by
-  cases k <;> simp [convertCoin, onBridge, primAsset]
+theorem clean_convertCoin' (k : Kind) (g : Nat) (s r : Addr) (n : Nat) (hh : notT s = true) (hr : notT r = true) : clean (convertCoin k g s r n) = true := by
+  cases k <;> simp [convertCoin, okPrim, primAddrs, onBridge, primAsset, M, E, precompileAcc, evmMod, badContract, hh, hr]
 
-theorem clean_convertERC20 (k : Kind) (g : Nat) (s r : Addr) (n : Nat) : clean (convertERC20 k g s r n) = true := by
-  cases k <;> simp [convertERC20, onBridge, primAsset]
+theorem clean_convertERC20' (k : Kind) (g : Nat) (s r : Addr) (n : Nat) (hh : notT s = true) (hr : notT r = true) : clean (convertERC20 k g s r n) = true := by
+  cases k <;> simp [convertERC20, okPrim, primAddrs, onBridge, primAsset, M, E, precompileAcc, evmMod, badContract, hh, hr]
 
-theorem clean_precompileTokenIn (k : Kind) (g : Nat) (s : Addr) (n : Nat) : clean (precompileTokenIn k g s n) = true := by
-  cases k <;> simp [precompileTokenIn, onBridge, primAsset]
+theorem clean_precompileTokenIn' (k : Kind) (g : Nat) (s : Addr) (n : Nat) (hh : notT s = true) : clean (precompileTokenIn k g s n) = true := by
+  cases k <;> simp [precompileTokenIn, okPrim, primAddrs, onBridge, primAsset, M, E, precompileAcc, evmMod, badContract, hh]
 
-theorem clean_valueIn (g : Nat) (s : Addr) (n : Nat) : clean (valueIn g s n) = true := by
-  simp [valueIn, onBridge, primAsset]
+theorem clean_valueIn' (g : Nat) (s : Addr) (n : Nat) (hh : notT s = true) : clean (valueIn g s n) = true := by
+  simp [valueIn, okPrim, primAddrs, onBridge, primAsset, M, E, precompileAcc, evmMod, badContract, hh]
 
-theorem clean_refundToEvm (k : Kind) (g : Nat) (r : Addr) (n : Nat) : clean (bridgeCallRefundToEvm k g r n) = true := by
-  cases k <;> simp [bridgeCallRefundToEvm, clean_convertCoin]
+theorem clean_refundToEvm' (k : Kind) (g : Nat) (r : Addr) (n : Nat) (hh : notT r = true) : clean (bridgeCallRefundToEvm k g r n) = true := by
+  cases k <;> simp [bridgeCallRefundToEvm, clean_convertCoin' _ _ _ _ _ hh hh]
+
+
+/-! the same for the accounts the operations really use (users) -/
+theorem clean_deposit {c : Nat} (hc : c < 3) (k : Kind) (g u n : Nat) : clean (bridgeTokenToBaseCoin k g c (U u) n) = true :=
+  clean_deposit' hc k g _ n rfl
+theorem clean_withdraw {c : Nat} (hc : c < 3) (k : Kind) (g u n : Nat) : clean (baseCoinToBridgeToken k g c (U u) n) = true :=
+  clean_withdraw' hc k g _ n rfl
+theorem clean_addBridgeFee {c : Nat} (hc : c < 3) (k : Kind) (g u n : Nat) : clean (addBridgeFee k g c (U u) n) = true :=
+  clean_addBridgeFee' hc k g _ n rfl
+theorem clean_convertDenom (k : Kind) (g u n : Nat) (src dst : Den) (hs : denOk src) (hd : denOk dst) :
+    clean (convertDenom k g (U u) n src dst) = true := clean_convertDenom' k g _ n src dst hs hd rfl
+theorem clean_feeToBridgeDenom {c : Nat} (hc : c < 3) (k : Kind) (g u n : Nat) : clean (feeToBridgeDenom k g c (U u) n) = true :=
+  clean_feeToBridgeDenom' hc k g _ n rfl
+theorem clean_refundCoin {c : Nat} (hc : c < 3) (k : Kind) (g r n : Nat) : clean (bridgeCallRefundCoin k g c (U r) n) = true :=
+  clean_refundCoin' hc k g _ n rfl
+theorem clean_convertCoin (k : Kind) (g u r n : Nat) : clean (convertCoin k g (U u) (U r) n) = true :=
+  clean_convertCoin' k g _ _ n rfl rfl
+theorem clean_convertERC20 (k : Kind) (g u r n : Nat) : clean (convertERC20 k g (U u) (U r) n) = true :=
+  clean_convertERC20' k g _ _ n rfl rfl
+theorem clean_precompileTokenIn (k : Kind) (g u n : Nat) : clean (precompileTokenIn k g (U u) n) = true :=
+  clean_precompileTokenIn' k g _ n rfl
+theorem clean_valueIn (g u n : Nat) : clean (valueIn g (U u) n) = true := clean_valueIn' g _ n rfl
+theorem clean_refundToEvm (k : Kind) (g r n : Nat) : clean (bridgeCallRefundToEvm k g (U r) n) = true :=
+  clean_refundToEvm' k g _ n rfl
 
 theorem foldlM_clean (stp : List Prim → (Nat × Nat) → Except Err (List Prim))
     (h : ∀ acc t r, stp acc t = .ok r → clean acc = true → clean r = true) :
@@ -294,7 +357,9 @@ theorem opFlow_clean (cfg : Cfg) (s s' : State) (op : Op) (hc : ∀ c, op.chain?
       | error e => simp [h2] at hfl
       | ok fl2 =>
         simp only [h2, Except.ok.injEq] at hfl; subst hfl
-        simp [tokensFlow_clean cfg c _ (fun k g n => by simp [clean_deposit hc3, onBridge, primAsset]) _ _ h1,
+        simp [tokensFlow_clean cfg c _ (fun k g n => by
+            rw [clean_append, clean_deposit' hc3 k g badContract n rfl]
+            simp [okPrim, primAddrs, onBridge, primAsset, badContract]) _ _ h1,
           tokensFlow_clean cfg c _ (fun k g n => clean_withdraw hc3 k g _ n) _ _ h2]
   | convertCoin g u r n =>
     simp only [opFlow] at hfl; exc'
@@ -325,7 +390,7 @@ theorem opFlow_clean (cfg : Cfg) (s s' : State) (op : Op) (hc : ∀ c, op.chain?
           have hd := okDen_denOk hb.2
           have h2 := onBridge_den g dst' hd
           simp only [clean_append, clean_convertDenom k g _ n src dst' hs hd, Bool.true_and]
-          split <;> simp [primAsset, h2]
+          split <;> simp [okPrim, primAddrs, primAsset, h2]
 
 /-- **no base operation touches a voucher**: every voucher-only observable is unchanged by every successful base step -/
 theorem step_voucher_frame {o : Obs} (hs : o.Sound) (ho : VoucherOnly o) (cfg : Cfg) (s s' : State) (op : Op)
@@ -397,7 +462,7 @@ theorem held3_ibcFlow (cfg : Cfg) (op : IbcOp) (g' : Nat) (fl : List Prim) (h : 
             held3_simp <;> (repeat' split) <;> (try simp_all) <;> (try omega)
           have h2 : (held3Obs g').flowDelta (convertCoin k g (U u) (U u) n) = 0 := by
             have a := held_convertCoin g' k g u u n
-            have b := clean_delta (vheldObs_voucherOnly g') _ (clean_convertCoin k g (U u) (U u) n)
+            have b := clean_delta (vheldObs_voucherOnly g') _ (clean_convertCoin k g u u n)
             rw [held3Obs, flowDelta_add, a, b]; rfl
           rw [h1, h2]; rfl
         · cases h
@@ -448,7 +513,7 @@ theorem run_measureV (s s1 : State) (fl : List Prim) (g : Nat) (h : run s fl = .
 theorem held3_precompileTokenIn (g' : Nat) (k : Kind) (g u n : Nat) :
     (held3Obs g').flowDelta (precompileTokenIn k g (U u) n) = 0 := by
   rw [held3Obs, flowDelta_add, held_precompileTokenIn g' k g u n,
-    clean_delta (vheldObs_voucherOnly g') _ (clean_precompileTokenIn k g (U u) n)]; rfl
+    clean_delta (vheldObs_voucherOnly g') _ (clean_precompileTokenIn k g u n)]; rfl
 
 /-- conserved quantity of the IBC layer -/
 def measure3 (s : State3) (g : Nat) : Int := measureV s.s2.base g - (s.ibcIn g : Int) + (s.ibcOut g : Int)
@@ -627,7 +692,7 @@ theorem stepIbc_holdings3 (cfg : Cfg) (s s' : State) (op : IbcOp) (g' : Nat) (x 
             fun fl => flowDelta_add _ _ fl
           rw [flowDelta_append, hadd (convertCoin k g (U u) (U u) n),
             acct_convertCoin g' x hx k g u u n,
-            clean_delta (vbal_voucherOnly g' x) _ (clean_convertCoin k g (U u) (U u) n)]
+            clean_delta (vbal_voucherOnly g' x) _ (clean_convertCoin k g u u n)]
           simp only [stated3]
           acct3_simp
           (repeat' split) <;> (try simp_all) <;> (try omega) <;> (try rfl) <;> (try (split <;> simp_all))
@@ -644,5 +709,140 @@ theorem stepIbc_holdings3 (cfg : Cfg) (s s' : State) (op : IbcOp) (g' : Nat) (x 
     · cases hf; simp only [stated3]
       acct3_simp
       (repeat' split) <;> (try simp_all) <;> (try omega) <;> (try rfl) <;> (try (split <;> simp_all))
+
+/-! ### the ibc-transfer module account keeps no base coin -/
+
+/-- no base operation touches the ibc-transfer module account -/
+theorem step_T_frame {o : Obs} (hs : o.Sound) (ho : TOnly o) (cfg : Cfg) (s s' : State) (op : Op)
+    (h : step cfg s op = .ok s') : o.val s'.L = o.val s.L := by
+  unfold step at h
+  have key : stepCore cfg s op = .ok s' ∧ ∀ c, op.chain? = some c → c < 3 := by
+    cases hch : op.chain? with
+    | none => simp only [hch] at h; exact ⟨h, by intro c hc; cases hc⟩
+    | some c =>
+      simp only [hch] at h
+      split at h
+      · rename_i hc; exact ⟨h, by intro c' hc'; cases hc'; exact hc⟩
+      · cases h
+  obtain ⟨fl, hfl, hval⟩ := stepCore_obs hs cfg s s' op key.1
+  rw [hval, clean_deltaT ho fl (opFlow_clean cfg s s' op key.2 key.1 fl hfl)]; omega
+
+def tbaseObs (g : Nat) : Obs := balObs (.base g) T
+
+theorem tbase_TOnly (g : Nat) : TOnly (tbaseObs g) := tbal_TOnly _
+
+theorem stepIbc_tbase (cfg : Cfg) (s s' : State) (op : IbcOp) (g' : Nat) (h : stepIbc cfg s op = .ok s') :
+    (tbaseObs g').val s'.L = (tbaseObs g').val s.L := by
+  obtain ⟨fl, hf, hr, -⟩ := stepIbc_flow cfg s s' op h
+  have hv := runFlow_obs (o := tbaseObs g') (balObs_sound _ _) fl _ _ hr
+  rw [hv]
+  suffices hz : (tbaseObs g').flowDelta fl = 0 by omega
+  clear hr h
+  cases op with
+  | recv g u n =>
+    simp only [ibcFlow] at hf; split at hf
+    · cases hf
+    · cases hf; simp [Obs.flowDelta, tbaseObs, balObs, voucher, T, ibcRoute]
+  | toBase g u n toErc =>
+    simp only [ibcFlow] at hf; split at hf
+    · cases hf
+    · cases toErc
+      · simp only [Bool.false_eq_true, ↓reduceIte, Except.ok.injEq] at hf; subst hf
+        simp [Obs.flowDelta, tbaseObs, balObs, voucher, T, ibcRoute, ibcCoinToBaseCoin, U] <;> (try (split <;> simp)) <;> (try omega)
+      · simp only [↓reduceIte] at hf
+        split at hf
+        · rename_i k hk
+          cases hf
+          rw [flowDelta_append, clean_deltaT (tbase_TOnly g') _ (clean_convertCoin k g u u n)]
+          simp [Obs.flowDelta, tbaseObs, balObs, voucher, T, ibcRoute, ibcCoinToBaseCoin, U] <;> (try (split <;> simp)) <;> (try omega)
+        · cases hf
+  | toIbc g u n =>
+    simp only [ibcFlow] at hf; split at hf
+    · cases hf
+    · cases hf
+      simp [Obs.flowDelta, tbaseObs, balObs, voucher, T, ibcRoute, baseCoinToIBCCoin, U] <;> (try (split <;> simp)) <;> (try omega)
+  | xfer g u n =>
+    simp only [ibcFlow] at hf; split at hf
+    · cases hf
+    · cases hf; simp [Obs.flowDelta, tbaseObs, balObs, voucher, T, ibcRoute]
+
+theorem step3_tbase (cfg : Cfg) (s s' : State3) (op : Op3) (g : Nat) (h : step3 cfg s op = .ok s') :
+    (tbaseObs g).val s'.s2.base.L = (tbaseObs g).val s.s2.base.L := by
+  have hb : ∀ a b o, step cfg a o = .ok b → (tbaseObs g).val b.L = (tbaseObs g).val a.L :=
+    fun a b o hs => step_T_frame (balObs_sound _ _) (tbal_TOnly _) cfg a b o hs
+  cases op with
+  | claim op =>
+    simp only [step3] at h
+    cases h2 : step2 cfg s.s2 op with
+    | error e => simp [h2] at h
+    | ok t =>
+      simp only [h2, Except.ok.injEq] at h; subst h
+      have hst := step2With_steps cfg execSteps s.s2 t op h2
+      exact Steps.inv (P := fun b => (tbaseObs g).val b.L = (tbaseObs g).val s.s2.base.L)
+        (fun a b o hs hp => by rw [hb a b o hs]; exact hp) hst rfl
+  | ibc op =>
+    simp only [step3] at h
+    cases hi : stepIbc cfg s.s2.base op with
+    | error e => simp [hi] at h
+    | ok b =>
+      simp only [hi] at h
+      have hm := stepIbc_tbase cfg _ _ op g hi
+      cases op <;> simp only [Except.ok.injEq] at h <;> subst h <;> simpa [setBase] using hm
+  | depositIbc c g0 u n =>
+    simp only [step3] at h
+    cases h1 : step cfg s.s2.base (.deposit c g0 u n false) with
+    | error e => simp [h1] at h
+    | ok b1 =>
+      simp only [h1] at h
+      cases h2 : stepIbc cfg b1 (.toIbc g0 u n) with
+      | error e => simp [h2] at h
+      | ok b2 =>
+        simp only [h2] at h
+        cases h3 : stepIbc cfg b2 (.xfer g0 u n) with
+        | error e => simp [h3] at h
+        | ok b3 =>
+          simp only [h3, Except.ok.injEq] at h; subst h
+          have m1 := hb _ _ _ h1
+          have m2 := stepIbc_tbase cfg _ _ _ g h2
+          have m3 := stepIbc_tbase cfg _ _ _ g h3
+          simp only [setBase]; omega
+  | xibc g0 u n =>
+    simp only [step3] at h
+    split at h
+    · cases h
+    · cases hk : cfg.kind g0 with
+      | none => simp [hk] at h
+      | some kp =>
+        simp only [hk] at h
+        cases h1 : run s.s2.base (precompileTokenIn kp g0 (U u) n) with
+        | error e => simp [h1] at h
+        | ok b1 =>
+          simp only [h1] at h
+          cases h2 : stepIbc cfg b1 (.toIbc g0 u n) with
+          | error e => simp [h2] at h
+          | ok b2 =>
+            simp only [h2] at h
+            cases h3 : stepIbc cfg b2 (.xfer g0 u n) with
+            | error e => simp [h3] at h
+            | ok b3 =>
+              simp only [h3, Except.ok.injEq] at h; subst h
+              obtain ⟨L', hL, rfl⟩ := run_ok h1
+              have m1 := runFlow_obs (balObs_sound (.base g) T) _ _ _ hL
+              rw [clean_deltaT (tbal_TOnly _) _ (clean_precompileTokenIn kp g0 u n)] at m1
+              have m2 := stepIbc_tbase cfg _ _ _ g h2
+              have m3 := stepIbc_tbase cfg _ _ _ g h3
+              simp only [setBase, tbaseObs] at m1 m2 m3 ⊢; omega
+
+theorem runOps3_tbase (cfg : Cfg) (ops : List Op3) (s : State3) (g : Nat) :
+    (tbaseObs g).val (runOps3 cfg s ops).s2.base.L = (tbaseObs g).val s.s2.base.L := by
+  induction ops generalizing s with
+  | nil => rfl
+  | cons op ops ih =>
+    simp only [runOps3, List.foldl_cons] at ih ⊢
+    rw [ih]
+    unfold stepT3
+    cases h : step3 cfg s op with
+    | error e => rfl
+    | ok s' => exact step3_tbase cfg s s' op g h
 
 end FxVerif.Proofs.C04
